@@ -12,15 +12,15 @@ namespace OpmVerif.RawKw
 open OpmVerif.Lex OpmVerif.Tok OpmVerif.Scan OpmVerif.DeckWrite
 
 /-- bytes after the keyword line: `write_data` and `end_keyword(closing)`. -/
-def bodyText (fmt : Bytes → Bytes) (flush split closing : Bool) (rs : List (List Vals)) : Bytes :=
-  (rs.flatMap fun r => writeRecord fmt flush split r) ++ (if closing then [47, 10] else [])
+def bodyText (fmt : Bytes → Bytes) (fl : List Vals → Bool) (split closing : Bool) (rs : List (List Vals)) : Bytes :=
+  (rs.flatMap fun r => writeRecord fmt (fl r) split r) ++ (if closing then [47, 10] else [])
 
 /-- the cleaned lines of that text. -/
 def bodyLines (split closing : Bool) (tss : List (List Bytes)) : List Bytes :=
   ((tss ++ if closing then [[]] else []).map (chunksOf split)).flatMap recLines
 
-theorem writeRecord_eq_recordText (fmt : Bytes → Bytes) (flush split : Bool) (r : List Vals) :
-    writeRecord fmt flush split r = recordText split (emitToks fmt flush false 0 r.flatten) := by
+theorem writeRecord_eq_recordText (fmt : Bytes → Bytes) (fl : List Vals → Bool) (split : Bool) (r : List Vals) :
+    writeRecord fmt (fl r) split r = recordText split (emitToks fmt (fl r) false 0 r.flatten) := by
   simp [writeRecord, writtenRecordText, recordText, List.append_assoc]
 
 theorem bodyLines_closing (split : Bool) (tss : List (List Bytes)) :
@@ -28,17 +28,17 @@ theorem bodyLines_closing (split : Bool) (tss : List (List Bytes)) :
   simp [bodyLines, chunksOf, recLines]
 
 /-- **cleaning the written keyword body** in front of any text `R`. -/
-theorem lines_body (fmt : Bytes → Bytes) (flush split closing : Bool) (rs : List (List Vals))
-    (h : ∀ r ∈ rs, ∀ t ∈ emitToks fmt flush false 0 r.flatten, CleanSafe t ∧ NoNL t) (R : Bytes) :
-    splitLines (fastClean (bodyText fmt flush split closing rs ++ R)) =
-      bodyLines split closing (rs.map fun r => emitToks fmt flush false 0 r.flatten) ++ splitLines (fastClean R) := by
-  have e1 : (rs.flatMap fun r => writeRecord fmt flush split r) =
-      (rs.map fun r => emitToks fmt flush false 0 r.flatten).flatMap (recordText split) := by
+theorem lines_body (fmt : Bytes → Bytes) (fl : List Vals → Bool) (split closing : Bool) (rs : List (List Vals))
+    (h : ∀ r ∈ rs, ∀ t ∈ emitToks fmt (fl r) false 0 r.flatten, CleanSafe t ∧ NoNL t) (R : Bytes) :
+    splitLines (fastClean (bodyText fmt fl split closing rs ++ R)) =
+      bodyLines split closing (rs.map fun r => emitToks fmt (fl r) false 0 r.flatten) ++ splitLines (fastClean R) := by
+  have e1 : (rs.flatMap fun r => writeRecord fmt (fl r) split r) =
+      (rs.map fun r => emitToks fmt (fl r) false 0 r.flatten).flatMap (recordText split) := by
     rw [List.flatMap_map]
     congr 1
     funext r
-    exact writeRecord_eq_recordText fmt flush split r
-  have hl := lines_records split (rs.map fun r => emitToks fmt flush false 0 r.flatten) (by
+    exact writeRecord_eq_recordText fmt fl split r
+  have hl := lines_records split (rs.map fun r => emitToks fmt (fl r) false 0 r.flatten) (by
     intro ts hts
     obtain ⟨r, hr, rfl⟩ := List.mem_map.mp hts
     exact h r hr)
@@ -77,15 +77,15 @@ theorem recOk_of_bodyOk {recog : Bytes → Bool} {raw split closing : Bool} {tss
 /-- **keyword assembly of a written keyword, line level**: for every size class with a
 `RunOk` run, in front of any following text `R`: the lines of the body are consumed, the
 raw keyword is finished and holds the emitted token lists, the lines of `R` remain. -/
-theorem assemble_written (fmt : Bytes → Bytes) (flush split closing : Bool) (recog : Bytes → Bool) (k0 : Kw)
+theorem assemble_written (fmt : Bytes → Bytes) (fl : List Vals → Bool) (split closing : Bool) (recog : Bytes → Bool) (k0 : Kw)
     (rs : List (List Vals)) (R : Bytes)
     (hne : rs ≠ [] ∨ closing = true)
-    (hrun : RunOk k0 (rs.map fun r => emitToks fmt flush false 0 r.flatten) closing)
-    (hbody : BodyOk recog k0.raw split closing (rs.map fun r => emitToks fmt flush false 0 r.flatten)) :
-    ∃ kf, feedLines recog k0 [] [] (splitLines (fastClean (bodyText fmt flush split closing rs ++ R))) =
+    (hrun : RunOk k0 (rs.map fun r => emitToks fmt (fl r) false 0 r.flatten) closing)
+    (hbody : BodyOk recog k0.raw split closing (rs.map fun r => emitToks fmt (fl r) false 0 r.flatten)) :
+    ∃ kf, feedLines recog k0 [] [] (splitLines (fastClean (bodyText fmt fl split closing rs ++ R))) =
         some (kf, splitLines (fastClean R)) ∧ kf.finished = true ∧
-      kf.records = k0.records ++ rs.map fun r => emitToks fmt flush false 0 r.flatten := by
-  rw [lines_body fmt flush split closing rs (by
+      kf.records = k0.records ++ rs.map fun r => emitToks fmt (fl r) false 0 r.flatten := by
+  rw [lines_body fmt fl split closing rs (by
     intro r hr t ht
     have := hbody.safe _ (List.mem_map.mpr ⟨r, hr, rfl⟩) t ht
     exact ⟨cleanSafe_of_tokSafe this.1, this.2⟩) R]
@@ -100,36 +100,36 @@ flags, and the text that follows is untouched.  `RunOk` is the size-class condit
 written records (all records emit a token for slash-terminated and fixed-size keywords; the
 records without tokens are exactly the table separators of a table collection …); `BodyOk`
 the condition on the tokens. -/
-theorem parse_write_keyword_lines (cv : Conv) (fmt : Bytes → Bytes) (flush split closing : Bool) (recog : Bytes → Bool)
+theorem parse_write_keyword_lines (cv : Conv) (fmt : Bytes → Bytes) (fl : List Vals → Bool) (split closing : Bool) (recog : Bytes → Bool)
     (k0 : Kw) (hk0 : k0.records = []) (schemas : List (List Item)) (alt : Bool) (rs : List (List Vals)) (R : Bytes)
     (hne : rs ≠ [] ∨ closing = true)
-    (hrun : RunOk k0 (rs.map fun r => emitToks fmt flush false 0 r.flatten) closing)
-    (hbody : BodyOk recog k0.raw split closing (rs.map fun r => emitToks fmt flush false 0 r.flatten))
+    (hrun : RunOk k0 (rs.map fun r => emitToks fmt (fl r) false 0 r.flatten) closing)
+    (hbody : BodyOk recog k0.raw split closing (rs.map fun r => emitToks fmt (fl r) false 0 r.flatten))
     (hrec : ∀ j r, rs[j]? = some r → ∃ items, schemaOf schemas alt j = some items ∧
       Conf cv fmt items r ∧ r.flatten.length ≤ 2147483647 ∧
-      (pend flush false 0 r.flatten = 0 ∨ r.flatten.length ≤ singlePrefix items)) :
-    ∃ kf, feedLines recog k0 [] [] (splitLines (fastClean (bodyText fmt flush split closing rs ++ R))) =
+      (pend (fl r) false 0 r.flatten = 0 ∨ r.flatten.length ≤ singlePrefix items)) :
+    ∃ kf, feedLines recog k0 [] [] (splitLines (fastClean (bodyText fmt fl split closing rs ++ R))) =
         some (kf, splitLines (fastClean R)) ∧ kf.finished = true ∧
       parseRecords cv schemas alt 0 kf.records = some (rs.map (·.map (·.map (normP fmt)))) := by
-  obtain ⟨kf, h1, h2, h3⟩ := assemble_written fmt flush split closing recog k0 rs R hne hrun hbody
+  obtain ⟨kf, h1, h2, h3⟩ := assemble_written fmt fl split closing recog k0 rs R hne hrun hbody
   refine ⟨kf, h1, h2, ?_⟩
   rw [h3, hk0, List.nil_append]
-  exact parseRecords_written cv schemas alt (fun r => emitToks fmt flush false 0 r.flatten)
+  exact parseRecords_written cv schemas alt (fun r => emitToks fmt (fl r) false 0 r.flatten)
     (fun r => r.map (·.map (normP fmt))) rs 0 (by
       intro j r hj
       obtain ⟨items, hs, hc, hl, ht⟩ := hrec j r hj
-      exact ⟨items, by simpa using hs, parse_write_tokens cv fmt flush items r hc hl ht⟩)
+      exact ⟨items, by simpa using hs, parse_write_tokens cv fmt (fl r) items r hc hl ht⟩)
 
 /-- line level, in front of any lines `rest` (also the end-of-file marker of an include). -/
-theorem parse_write_keyword_linesL (cv : Conv) (fmt : Bytes → Bytes) (flush split closing : Bool) (recog : Bytes → Bool)
+theorem parse_write_keyword_linesL (cv : Conv) (fmt : Bytes → Bytes) (fl : List Vals → Bool) (split closing : Bool) (recog : Bytes → Bool)
     (k0 : Kw) (hk0 : k0.records = []) (schemas : List (List Item)) (alt : Bool) (rs : List (List Vals)) (rest : List Bytes)
     (hne : rs ≠ [] ∨ closing = true)
-    (hrun : RunOk k0 (rs.map fun r => emitToks fmt flush false 0 r.flatten) closing)
-    (hbody : BodyOk recog k0.raw split closing (rs.map fun r => emitToks fmt flush false 0 r.flatten))
+    (hrun : RunOk k0 (rs.map fun r => emitToks fmt (fl r) false 0 r.flatten) closing)
+    (hbody : BodyOk recog k0.raw split closing (rs.map fun r => emitToks fmt (fl r) false 0 r.flatten))
     (hrec : ∀ j r, rs[j]? = some r → ∃ items, schemaOf schemas alt j = some items ∧
       Conf cv fmt items r ∧ r.flatten.length ≤ 2147483647 ∧
-      (pend flush false 0 r.flatten = 0 ∨ r.flatten.length ≤ singlePrefix items)) :
-    ∃ kf, feedLines recog k0 [] [] (bodyLines split closing (rs.map fun r => emitToks fmt flush false 0 r.flatten) ++ rest) =
+      (pend (fl r) false 0 r.flatten = 0 ∨ r.flatten.length ≤ singlePrefix items)) :
+    ∃ kf, feedLines recog k0 [] [] (bodyLines split closing (rs.map fun r => emitToks fmt (fl r) false 0 r.flatten) ++ rest) =
         some (kf, rest) ∧ kf.finished = true ∧
       parseRecords cv schemas alt 0 kf.records = some (rs.map (·.map (·.map (normP fmt)))) := by
   obtain ⟨kf, h1, h2, h3⟩ := feedLines_written_kw recog k0 split closing _ rest (by
@@ -138,25 +138,25 @@ theorem parse_write_keyword_linesL (cv : Conv) (fmt : Bytes → Bytes) (flush sp
       · right; exact h) hrun (recOk_of_bodyOk hbody) hbody.slash
   refine ⟨kf, h1, h2, ?_⟩
   rw [h3, hk0, List.nil_append]
-  exact parseRecords_written cv schemas alt (fun r => emitToks fmt flush false 0 r.flatten)
+  exact parseRecords_written cv schemas alt (fun r => emitToks fmt (fl r) false 0 r.flatten)
     (fun r => r.map (·.map (normP fmt))) rs 0 (by
       intro j r hj
       obtain ⟨items, hs, hc, hl, ht⟩ := hrec j r hj
-      exact ⟨items, by simpa using hs, parse_write_tokens cv fmt flush items r hc hl ht⟩)
+      exact ⟨items, by simpa using hs, parse_write_tokens cv fmt (fl r) items r hc hl ht⟩)
 
 /-- the same as a statement about `parseKeywordText` (the keyword alone in its text). -/
-theorem parse_write_keyword_text (cv : Conv) (fmt : Bytes → Bytes) (flush split closing : Bool) (recog : Bytes → Bool)
+theorem parse_write_keyword_text (cv : Conv) (fmt : Bytes → Bytes) (fl : List Vals → Bool) (split closing : Bool) (recog : Bytes → Bool)
     (k0 : Kw) (hk0 : k0.records = []) (hnf : k0.finished = false) (schemas : List (List Item)) (alt : Bool)
     (rs : List (List Vals))
     (hne : rs ≠ [] ∨ closing = true)
-    (hrun : RunOk k0 (rs.map fun r => emitToks fmt flush false 0 r.flatten) closing)
-    (hbody : BodyOk recog k0.raw split closing (rs.map fun r => emitToks fmt flush false 0 r.flatten))
+    (hrun : RunOk k0 (rs.map fun r => emitToks fmt (fl r) false 0 r.flatten) closing)
+    (hbody : BodyOk recog k0.raw split closing (rs.map fun r => emitToks fmt (fl r) false 0 r.flatten))
     (hrec : ∀ j r, rs[j]? = some r → ∃ items, schemaOf schemas alt j = some items ∧
       Conf cv fmt items r ∧ r.flatten.length ≤ 2147483647 ∧
-      (pend flush false 0 r.flatten = 0 ∨ r.flatten.length ≤ singlePrefix items)) :
-    parseKeywordText cv recog k0 schemas alt false (bodyText fmt flush split closing rs) =
+      (pend (fl r) false 0 r.flatten = 0 ∨ r.flatten.length ≤ singlePrefix items)) :
+    parseKeywordText cv recog k0 schemas alt false (bodyText fmt fl split closing rs) =
       some (rs.map (·.map (·.map (normP fmt))), []) := by
-  obtain ⟨kf, h1, h2, h3⟩ := parse_write_keyword_lines cv fmt flush split closing recog k0 hk0 schemas alt rs [] hne
+  obtain ⟨kf, h1, h2, h3⟩ := parse_write_keyword_lines cv fmt fl split closing recog k0 hk0 schemas alt rs [] hne
     hrun hbody hrec
   unfold parseKeywordText
   simp only [List.append_nil] at h1
@@ -194,41 +194,41 @@ theorem parseRecordsDouble_written (cv : Conv) (schemas : List (List Item)) (alt
       simp only [List.map_cons, parseRecordsDouble, he, Bool.false_eq_true, ↓reduceIte, hs, hp, ih (i + 1) hrest]
 
 /-- **double-record keywords**: blocks of records, each block closed by an empty record. -/
-theorem parse_write_keyword_double (cv : Conv) (fmt : Bytes → Bytes) (flush split : Bool) (recog : Bytes → Bool)
+theorem parse_write_keyword_double (cv : Conv) (fmt : Bytes → Bytes) (fl : List Vals → Bool) (split : Bool) (recog : Bytes → Bool)
     (k0 : Kw) (hk0 : k0.records = []) (schemas : List (List Item)) (alt : Bool) (rs : List (List Vals)) (R : Bytes)
-    (hrun : RunOk k0 (rs.map fun r => emitToks fmt flush false 0 r.flatten) true)
-    (hbody : BodyOk recog k0.raw split true (rs.map fun r => emitToks fmt flush false 0 r.flatten))
-    (hrec : DblConf (fun r => emitToks fmt flush false 0 r.flatten)
+    (hrun : RunOk k0 (rs.map fun r => emitToks fmt (fl r) false 0 r.flatten) true)
+    (hbody : BodyOk recog k0.raw split true (rs.map fun r => emitToks fmt (fl r) false 0 r.flatten))
+    (hrec : DblConf (fun r => emitToks fmt (fl r) false 0 r.flatten)
       (fun j r => ∃ items, schemaOf schemas alt j = some items ∧ Conf cv fmt items r ∧ r.flatten.length ≤ 2147483647 ∧
-        (pend flush false 0 r.flatten = 0 ∨ r.flatten.length ≤ singlePrefix items)) 0 rs) :
-    ∃ kf, feedLines recog k0 [] [] (splitLines (fastClean (bodyText fmt flush split true rs ++ R))) =
+        (pend (fl r) false 0 r.flatten = 0 ∨ r.flatten.length ≤ singlePrefix items)) 0 rs) :
+    ∃ kf, feedLines recog k0 [] [] (splitLines (fastClean (bodyText fmt fl split true rs ++ R))) =
         some (kf, splitLines (fastClean R)) ∧ kf.finished = true ∧
       parseRecordsDouble cv schemas alt 0 kf.records = some (rs.map (·.map (·.map (normP fmt)))) := by
-  obtain ⟨kf, h1, h2, h3⟩ := assemble_written fmt flush split true recog k0 rs R (Or.inr rfl) hrun hbody
+  obtain ⟨kf, h1, h2, h3⟩ := assemble_written fmt fl split true recog k0 rs R (Or.inr rfl) hrun hbody
   refine ⟨kf, h1, h2, ?_⟩
   rw [h3, hk0, List.nil_append]
-  apply parseRecordsDouble_written cv schemas alt (fun r => emitToks fmt flush false 0 r.flatten)
+  apply parseRecordsDouble_written cv schemas alt (fun r => emitToks fmt (fl r) false 0 r.flatten)
     (fun r => r.map (·.map (normP fmt))) rfl rs 0
   -- transport the conformance predicate
   have key : ∀ (rs : List (List Vals)) (i : Nat),
-      DblConf (fun r => emitToks fmt flush false 0 r.flatten)
+      DblConf (fun r => emitToks fmt (fl r) false 0 r.flatten)
         (fun j r => ∃ items, schemaOf schemas alt j = some items ∧ Conf cv fmt items r ∧ r.flatten.length ≤ 2147483647 ∧
-          (pend flush false 0 r.flatten = 0 ∨ r.flatten.length ≤ singlePrefix items)) i rs →
-      DblConf (fun r => emitToks fmt flush false 0 r.flatten)
+          (pend (fl r) false 0 r.flatten = 0 ∨ r.flatten.length ≤ singlePrefix items)) i rs →
+      DblConf (fun r => emitToks fmt (fl r) false 0 r.flatten)
         (fun j r => ∃ items, schemaOf schemas alt j = some items ∧
-          parseItems cv items (emitToks fmt flush false 0 r.flatten) = some (r.map (·.map (normP fmt)))) i rs := by
+          parseItems cv items (emitToks fmt (fl r) false 0 r.flatten) = some (r.map (·.map (normP fmt)))) i rs := by
     intro rs
     induction rs with
     | nil => intro i _; trivial
     | cons r rs ih =>
       intro i h
       simp only [DblConf] at h ⊢
-      by_cases he : (emitToks fmt flush false 0 r.flatten).isEmpty = true
+      by_cases he : (emitToks fmt (fl r) false 0 r.flatten).isEmpty = true
       · simp only [he, ↓reduceIte] at h ⊢
         exact ⟨h.1, ih 0 h.2⟩
       · simp only [he, Bool.false_eq_true, ↓reduceIte] at h ⊢
         obtain ⟨⟨items, hs, hc, hl, ht⟩, hrest⟩ := h
-        exact ⟨⟨items, hs, parse_write_tokens cv fmt flush items r hc hl ht⟩, ih (i + 1) hrest⟩
+        exact ⟨⟨items, hs, parse_write_tokens cv fmt (fl r) items r hc hl ht⟩, ih (i + 1) hrest⟩
   exact key rs 0 hrec
 
 end OpmVerif.RawKw
